@@ -61,6 +61,14 @@ def equal_means(rng, count):
 
 def stages(tier, rng, only=None):
     cfgs = ["Borda", "BordaBid"]
+
+    def by_library_factor():
+        # the accepted families multiplied by the LIBRARY (k * s with k = 1/3, 2/3, 1/7, 3): penalties 0, 1/2 and 1 only,
+        # so the ratios of the product to the family are the same float for every entry
+        cs = ac.cases(grids.datasets(3, 2)[::2], cfgs, FAM, flags=(0,), all_schemes=True, namings=["ints", "letters"])
+        for k, c in enumerate(cs):
+            c["mulk"] = [(1, 3), (2, 3), (1, 7), (3, 1)][k % 4]
+        return cs
     out = [ac.stage("grid3x2", PID, lambda: ac.cases(grids.datasets(3, 2), cfgs, SCHEMES, flags=(0,),
                                                      all_schemes=True, namings=["ints", "letters", "collide"]), _nt)]
     n_rand = 500 if tier == "quick" else 5000
@@ -79,6 +87,7 @@ def stages(tier, rng, only=None):
     near = FAM + [([0, 4, 3, 0, 4, 3], [3, 3, 0, 3, 3, 0], 4), ([0, 4, 3, 0, 0, 0], [3, 3, 0, 0, 0, 0], 4), ac.P_PSE1]
     out.append(ac.stage("microscopic_penalties", PID, lambda: ac.scaled_cases(
         grids.datasets(3, 2)[::2], cfgs, near, 40, flags=(0,)), _nt))
+    out.append(ac.stage("multiplied_by_the_library", PID, by_library_factor, _nt))
     out.append(ac.stage("equal_means", PID, lambda: ac.cases(equal_means(rng, n_rand // 2), cfgs, FAM, flags=(0,),
                                                              all_schemes=True, namings=["ints", "letters"]), _nt))
     if tier == "thorough":
